@@ -11,6 +11,9 @@ structure DSt where
   s : St := {}
   cancelled : Bool := false
   active : Bool := false
+  /-- verdict only: the requests that were in flight when the count was reached (read from the implementation's own
+      report on that line); nothing else may be asked afterwards -/
+  fullInflight : Option (List String) := none
 
 def parseProvs (t : String) : List Prov :=
   if t == "" || t == "-" then [] else
@@ -61,8 +64,29 @@ def step (st : DSt) (line : String) : DSt × String :=
 def verdict (st : DSt) (line : String) : DSt × String :=
   if line.startsWith "#" then ({}, line) else
   let (inp, impl) := splitTab line
-  let (st', _) := step st inp
+  let (st1, _) := step st inp
+  -- "… and then stops asking further peers": from the moment `count` providers have been found, the only requests that
+  -- still come back are those that were already under way
+  let nowFull := st1.active && st1.count > 0 && full st1.count st1.s && !st1.cancelled
+  let inflightNow : List String := match (words impl).find? (·.startsWith "inflight=") with
+    | some w => splitList (String.ofList (w.toList.drop 9))
+    | none => []
+  let released : List String := match words inp with
+    | ["rel", tok] => [(tok.splitOn ":").headD ""]
+    | "finish" :: rest => (match rest.find? (·.startsWith "late=") with
+        | some w => ((String.ofList (w.toList.drop 5)).splitOn ",").map fun t => (t.splitOn ":").headD ""
+        | none => [])
+    | _ => []
+  let (late, remaining) : List String × Option (List String) := match st.fullInflight with
+    | some allowed => if st1.cancelled then ([], none) else
+        let r := released.foldl (fun (acc : List String × List String) t =>
+          if acc.2.contains t then (acc.1, acc.2.erase t) else (acc.1 ++ [t], acc.2)) ([], allowed)
+        (r.1.filter (·.startsWith "P"), some r.2)
+    | none => ([], if nowFull && (words inp).head? != some "finish" then some inflightNow else none)
+  let st' := { st1 with fullInflight := remaining }
   if (impl.splitOn "panic").length > 1 then (st', "FAIL panic") else
+  if !late.isEmpty then
+    (st', s!"FAIL {late.headD ""} was asked for providers after the requested number had been found (it was not under way at that moment)") else
   if (words inp).head? != some "finish" || !st'.active then (st', "ok") else
   let seq : List (Nat × Bool) := match (words impl).find? (·.startsWith "pseq=") with
     | some w => (splitList (String.ofList (w.toList.drop 5))).map fun (t : String) =>
